@@ -55,9 +55,16 @@ def tests_summary(out):
 
 def main():
     for mid in sys.argv[1:]:
-        wt, demo_cmd, tests = T[mid]
         n = mid.split("-")[-1]
-        w = f"/tmp/mut/{wt}"
+        if mid in T:
+            wt, demo_cmd, tests = T[mid]
+            w = f"/tmp/mut/{wt}"
+        else:
+            # third round: uniform layout /tmp/wt-<Cxxb>/out/<n>/{patch.diff, demo.patch, demo_cmd.txt}
+            w = "/tmp/wt-" + mid.rsplit("-", 1)[0]
+            demo_cmd = f"git apply out/{n}/demo.patch"
+            tests = [l.strip() for l in open(f"{w}/out/{n}/demo_cmd.txt") if l.strip() and not l.startswith("#")]
+            tests = [re.sub(r"^(cd \S+ && )?(CARGO_NET_OFFLINE=true )?", "", t) for t in tests]
         rec = {"id": mid, "worktree": w}
         sh("git checkout -- . && git clean -fdq -e out -e target", w)
         rc, out = sh(f"git apply out/{n}/patch.diff", w)
